@@ -1098,6 +1098,187 @@ Proof.
 Qed.
 
 (* ------------------------------------------------------------------------------------------ *)
+(** * the clause language on one entity: a valid request executes; the clause skeleton is grammatical *)
+
+Lemma vars_add_nodup : forall vs x vt vs', vars_add vs x vt = Some vs' -> NoDup (map fst vs) -> NoDup (map fst vs').
+Proof. intros vs x vt vs' H Hnd. exact (proj1 (vars_add_spec _ _ _ _ H Hnd)). Qed.
+
+Lemma lim_var_nodup : forall l vs vs', lim_var l vs = Some vs' -> NoDup (map fst vs) -> NoDup (map fst vs').
+Proof.
+  intros [[|x]|] vs vs' H Hnd; cbn [lim_var] in H; try (inversion H; subst; exact Hnd).
+  eapply vars_add_nodup; eauto.
+Qed.
+
+Lemma filter_check_nodup : forall q f vs vs', filter_check q f vs = Some vs' -> NoDup (map fst vs) -> NoDup (map fst vs').
+Proof.
+  intros q [[k eqop] v] vs vs' H Hnd. cbn [filter_check] in H.
+  destruct (key_info q k) as [i|]; [|discriminate].
+  destruct (ki_ref i && negb eqop); [discriminate|].
+  destruct v; try (destruct (ki_ref i); [discriminate|]).
+  - eapply vars_add_nodup; eauto.
+  - destruct (ki_nullable i || ki_ref i); inversion H; subst; exact Hnd.
+  - destruct (ki_type i); inversion H; subst; exact Hnd.
+  - destruct (ki_type i); inversion H; subst; exact Hnd.
+  - destruct (ki_type i); inversion H; subst; exact Hnd.
+  - destruct (ki_type i); try discriminate; [destruct (s_b64 s); inversion H; subst; exact Hnd|inversion H; subst; exact Hnd].
+Qed.
+
+Lemma filters_check_nodup : forall q fs vs vs', filters_check q fs vs = Some vs' -> NoDup (map fst vs) -> NoDup (map fst vs').
+Proof.
+  intros q. induction fs as [|f fs IH]; intros vs vs' H Hnd; cbn [filters_check] in H; [inversion H; subst; exact Hnd|].
+  destruct (filter_check q f vs) as [v1|] eqn:E; [|discriminate]. eapply IH; [exact H|]. eapply filter_check_nodup; eauto.
+Qed.
+
+Lemma paging_check_nodup : forall q kv vs vs', paging_check q kv vs = Some vs' -> NoDup (map fst vs) -> NoDup (map fst vs').
+Proof.
+  intros q [k v] vs vs' H Hnd. cbn [paging_check] in H.
+  destruct (key_info q k) as [i|]; [|discriminate].
+  destruct v; try discriminate.
+  - eapply vars_add_nodup; eauto.
+  - destruct (ki_type i); inversion H; subst; exact Hnd.
+  - destruct (ki_type i); inversion H; subst; exact Hnd.
+  - destruct (ki_type i); inversion H; subst; exact Hnd.
+  - destruct (ki_type i); try discriminate; [destruct (s_b64 s); inversion H; subst; exact Hnd|inversion H; subst; exact Hnd].
+Qed.
+
+Lemma pagings_check_nodup : forall q kvs vs vs', pagings_check q kvs vs = Some vs' -> NoDup (map fst vs) -> NoDup (map fst vs').
+Proof.
+  intros q. induction kvs as [|kv kvs IH]; intros vs vs' H Hnd; cbn [pagings_check] in H; [inversion H; subst; exact Hnd|].
+  destruct (paging_check q kv vs) as [v1|] eqn:E; [|discriminate]. eapply IH; [exact H|]. eapply paging_check_nodup; eauto.
+Qed.
+
+Lemma aquery_check_nodup : forall q vs, aquery_check q = Some vs -> NoDup (map fst vs).
+Proof.
+  intros q vs H. unfold aquery_check in H.
+  destruct (lim_var (aq_first q) []) as [v1|] eqn:E1; [|discriminate].
+  destruct (lim_var (aq_skip q) v1) as [v2|] eqn:E2; [|discriminate].
+  match type of H with match ?m with _ => _ end = _ => destruct m as [v3|] eqn:E3; [|discriminate] end.
+  destruct (negb (forallb sel_ok (aq_sel q))); [discriminate|].
+  destruct (filters_check q (aq_filters q) v3) as [v4|] eqn:E4; [|discriminate].
+  repeat match type of H with (if ?c then None else _) = _ => destruct c; [discriminate|] end.
+  destruct (pagings_check q (combine (aq_order q) (paging_of q)) v4) as [v5|] eqn:E5; [|discriminate].
+  destruct (existsb is_sub_sel (aq_sel q) && is_aggregate q); [discriminate|]. inversion H; subst.
+  eapply pagings_check_nodup; [exact E5|]. eapply filters_check_nodup; [exact E4|].
+  assert (Hn2 : NoDup (map fst v2)).
+  { eapply lim_var_nodup; [exact E2|]. eapply lim_var_nodup; [exact E1|constructor]. }
+  destruct (aq_search q) as [[b|x b]|]; try (inversion E3; subst; exact Hn2).
+  eapply vars_add_nodup; eauto.
+Qed.
+
+Theorem valid_aquery_executes : forall q,
+  aquery_valid q = true -> search_blank q = false -> ref_filter_on_aggregate q = false -> aquery_outcome q = OOk.
+Proof.
+  intros q Hv Hb Hr. unfold aquery_valid in Hv. unfold aquery_outcome.
+  destruct (aquery_check q) as [vs|] eqn:Ec; [|discriminate].
+  destruct (validate_params_succeeds vs (aq_params q) (aquery_check_nodup _ _ Ec)) as (ps' & Hps).
+  { intros x vt Hin. rewrite forallb_forall in Hv. specialize (Hv _ Hin). cbn [fst snd] in Hv.
+    destruct (lookup x (aq_params q)) as [p|]; [|discriminate]. exists p. split; [reflexivity|].
+    destruct (validate_one vt p); [discriminate|discriminate]. }
+  rewrite Hps, Hb, Hr. reflexivity.
+Qed.
+
+Lemma aquery_never_panics : forall q, aquery_outcome q <> OPanic.
+Proof.
+  intros q. unfold aquery_outcome. destruct (aquery_check q); [|discriminate].
+  destruct (validate_params v (aq_params q)); [|discriminate].
+  destruct (search_blank q); [discriminate|]. destruct (ref_filter_on_aggregate q); discriminate.
+Qed.
+
+Theorem delete_never_panics : forall p, delete_outcome p <> OPanic.
+Proof.
+  intros [p0|]; cbn [delete_outcome]; [|discriminate].
+  destruct p0 as [| |f|s|s|]; cbn [validate_one]; try discriminate.
+  destruct (s_b64 s); [|discriminate]. cbn [as_string]. destruct (s_uid s); discriminate.
+Qed.
+
+Lemma valid_delete_executes : forall p, delete_valid p = true -> delete_outcome p = OOk.
+Proof.
+  intros [[| |f|s|s|]|] H; cbn [delete_valid] in H; try discriminate.
+  apply andb_prop in H. destruct H as [Hb Hu]. cbn [delete_outcome validate_one]. rewrite Hb. cbn [as_string].
+  destruct (s_uid s); [discriminate|reflexivity|reflexivity].
+Qed.
+
+(* the automaton over concatenations *)
+Fixpoint cfold (st : cstate) (having : bool) (ts : list ctok) : option (cstate * bool) :=
+  match ts with
+  | [] => Some (st, having)
+  | t :: r => match cstep st having t with Some (st', h') => cfold st' h' r | None => None end
+  end.
+Lemma crun_cfold : forall ts st h,
+  crun st h ts = match cfold st h ts with Some (SCond, _) => false | Some _ => true | None => false end.
+Proof.
+  induction ts as [|t ts IH]; intros st h; cbn [crun cfold]; [destruct st; reflexivity|].
+  destruct (cstep st h t) as [[st' h']|]; [apply IH|reflexivity].
+Qed.
+Lemma cfold_app : forall a b st h,
+  cfold st h (a ++ b) = match cfold st h a with Some (st', h') => cfold st' h' b | None => None end.
+Proof.
+  induction a as [|t a IH]; intros b st h; cbn [app cfold]; [reflexivity|].
+  destruct (cstep st h t) as [[st' h']|]; [apply IH|reflexivity].
+Qed.
+Lemma cfold_joined : forall n h, cfold SCond h (joined (S n)) = Some (SAfterCond, h).
+Proof.
+  induction n as [|n IH]; intros h; [reflexivity|].
+  change (joined (S (S n))) with (CCond :: CAnd :: joined (S n)). cbn [cfold cstep]. apply IH.
+Qed.
+Lemma cfold_exists : forall sel nl i h, cfold SAfterCond h (exists_conds sel nl i) = Some (SAfterCond, h).
+Proof.
+  induction sel as [|s sel IH]; intros nl i h; cbn [exists_conds]; [reflexivity|].
+  destruct s as [t n| |fn t| |[|]]; try apply IH.
+  rewrite cfold_app. destruct (existsb (Nat.eqb i) nl); cbn [cfold cstep]; apply IH.
+Qed.
+
+Lemma agg_filter_needs_aggregate : forall q,
+  filter (fun f => key_is_agg q (fst (fst f))) (aq_filters q) <> [] -> is_aggregate q = true.
+Proof.
+  intros q H. destruct (filter (fun f => key_is_agg q (fst (fst f))) (aq_filters q)) as [|f l] eqn:E; [contradiction|].
+  assert (Hin : In f (filter (fun f => key_is_agg q (fst (fst f))) (aq_filters q))) by (rewrite E; left; reflexivity).
+  apply filter_In in Hin. destruct Hin as [_ Hk]. unfold key_is_agg in Hk.
+  destruct (fst (fst f)) as [t n| | |i|]; cbn [key_info] in Hk; try discriminate.
+  destruct (nth_error (aq_sel q) i) as [s|] eqn:En; [|discriminate]. cbn [option_map] in Hk.
+  unfold is_aggregate. apply existsb_exists. exists s. split; [eapply nth_error_In; eauto|].
+  destruct s; cbn in Hk; try discriminate. reflexivity.
+Qed.
+
+Theorem clauses_grammatical : forall q, clauses_ok (emit_clauses q) = true.
+Proof.
+  intros q. unfold clauses_ok. rewrite crun_cfold. unfold emit_clauses. cbv zeta.
+  pose proof (agg_filter_needs_aggregate q) as Hagg.
+  set (nagg := List.length (filter (fun f => key_is_agg q (fst (fst f))) (aq_filters q))) in *.
+  assert (Hagg' : nagg <> O -> is_aggregate q = true).
+  { intros Hn. apply Hagg. intro E. apply Hn. unfold nagg. rewrite E. reflexivity. }
+  clear Hagg.
+  set (nplain := List.length (filter (fun f => negb (key_is_agg q (fst (fst f)))) (aq_filters q))).
+  rewrite cfold_app. cbn [cfold cstep].
+  rewrite cfold_app, cfold_exists.
+  rewrite cfold_app.
+  assert (Hs : cfold SAfterCond false (match aq_search q with Some _ => [CAnd; CCond] | None => [] end) = Some (SAfterCond, false))
+    by (destruct (aq_search q); reflexivity).
+  rewrite Hs. rewrite cfold_app.
+  assert (Hp : cfold SAfterCond false (match nplain with O => [] | S _ => CAnd :: joined nplain end) = Some (SAfterCond, false)).
+  { destruct nplain as [|n]; [reflexivity|]. cbn [cfold cstep]. apply cfold_joined. }
+  rewrite Hp. clear Hs Hp.
+  destruct (is_aggregate q) eqn:Eagg.
+  - destruct nagg as [|n].
+    + cbn [Nat.eqb negb orb andb joined app].
+      destruct (existsb _ (aq_sel q)); destruct (match paging_of q with [] => true | _ => false end);
+        destruct (negb (match aq_order q with [] => true | _ => false end) || match aq_search q with Some _ => true | None => false end);
+        destruct (aq_first q), (aq_skip q); reflexivity.
+    + cbn [Nat.eqb negb orb andb].
+      rewrite cfold_app.
+      destruct (existsb _ (aq_sel q)); cbn [app cfold cstep];
+        rewrite cfold_app, cfold_joined;
+        destruct (match paging_of q with [] => true | _ => false end);
+        destruct (negb (match aq_order q with [] => true | _ => false end) || match aq_search q with Some _ => true | None => false end);
+        destruct (aq_first q), (aq_skip q); reflexivity.
+  - destruct nagg as [|n]; [|specialize (Hagg' (Nat.neq_succ_0 n)); discriminate].
+    cbn [Nat.eqb negb orb andb joined app].
+    destruct (match paging_of q with [] => true | _ => false end);
+      destruct (negb (match aq_order q with [] => true | _ => false end) || match aq_search q with Some _ => true | None => false end);
+      destruct (aq_first q), (aq_skip q); reflexivity.
+Qed.
+
+(* ------------------------------------------------------------------------------------------ *)
 (** * the master statement: outside the listed classes the model satisfies the property's oracle *)
 
 Lemma Forall2_map_same : forall A B C (f : A -> B) (g : A -> C) (R : B -> C -> Prop) l,
@@ -1120,7 +1301,7 @@ Proof. intros r. split; [apply verify_row_never_panics|discriminate]. Qed.
 
 Theorem run_spec_outside_known : forall c, known_C14 c = [] -> spec_C14 c (run_C14 c) = true.
 Proof.
-  intros c Hk. destruct c as [m|ms|k pok|r|rs|dm qs|dm q|s]; cbn [known_C14 spec_C14 run_C14] in *.
+  intros c Hk. destruct c as [m|ms|k pok|r|rs|dm qs|dm q|aq|dp|s]; cbn [known_C14 spec_C14 run_C14] in *.
   - apply (pool_run_ok [mutation_valid m] [mutate_outcome m] _ default_parallelism_pos).
     constructor; [apply mutation_step_ok|constructor].
   - apply (pool_run_ok (map mutation_valid ms) (map mutate_outcome ms) _ default_parallelism_pos).
@@ -1144,6 +1325,11 @@ Proof.
       cbn [Z.eqb]. subst d. unfold zn. rewrite Z.eqb_refl. cbn [andb]. apply Z.leb_le. lia.
     + cbn [Z.eqb]. destruct (entity_valid dm q) eqn:Ev; [|reflexivity].
       destruct (entity_valid_resolves dm q Ev) as (c & Hc). rewrite Hc in Er. discriminate.
+  - apply app_eq_nil in Hk. destruct Hk as [H5 H8]. apply flag_nil in H5, H8.
+    apply (pool_run_ok [aquery_valid aq] [aquery_outcome aq] _ default_parallelism_pos).
+    constructor; [|constructor]. split; [apply aquery_never_panics|]. intro Hv. apply valid_aquery_executes; assumption.
+  - apply (pool_run_ok [delete_valid dp] [delete_outcome dp] _ default_parallelism_pos).
+    constructor; [|constructor]. split; [apply delete_never_panics|apply valid_delete_executes].
   - reflexivity.
 Qed.
 
